@@ -2221,4 +2221,160 @@ theorem certs_O (env : Env) (A B : St) (hA : WF env A) (hB : WF env B) (hag : Ce
         intro h; injection h with h; injection h with h; subst h; exact ha hpc
       · simp at hc
 
+-- ---------------------------------------------------------------- assembly --
+
+/-- equality of two (normalised) entries, with the per-cluster lists of tcp/udp fronts compared
+    as multisets -/
+def entryEq : Option Val → Option Val → Prop
+  | some (.tfs l), some (.tfs l') => l.Perm l'
+  | a, b => a = b
+
+theorem entryEq_refl (v : Option Val) : entryEq v v := by
+  cases v with
+  | none => rfl
+  | some x => cases x <;> first | rfl | exact List.Perm.refl _
+
+/-- same configuration up to empty buckets and the order inside a per-cluster list of tcp/udp fronts -/
+def EquivP (s s' : St) : Prop := ∀ t, entryEq (norm (look s t)) (norm (look s' t))
+
+theorem entryEq_of_eq (v w : Option Val) (h : v = w) : entryEq v w := by rw [h]; exact entryEq_refl w
+
+theorem entryEq_tfs (v w : Option Val) (hv : v = none ∨ ∃ l, v = some (.tfs l)) (hw : w = none ∨ ∃ l, w = some (.tfs l))
+    (hp : (tfsOf v).Perm (tfsOf w)) : entryEq (norm v) (norm w) := by
+  rcases hv with rfl | ⟨l, rfl⟩ <;> rcases hw with rfl | ⟨l', rfl⟩ <;> simp only [tfsOf] at hp
+  · exact entryEq_refl _
+  · have : l' = [] := List.Perm.eq_nil (List.Perm.symm hp) |> fun h => h
+    subst this; exact entryEq_refl _
+  · have : l = [] := List.Perm.eq_nil hp
+    subst this; exact entryEq_refl _
+  · cases l with
+    | nil => have : l' = [] := List.Perm.eq_nil (List.Perm.symm hp); subst this; exact entryEq_refl _
+    | cons x t =>
+      cases l' with
+      | nil => exact absurd (List.Perm.eq_nil hp) (by simp)
+      | cons y t' => exact hp
+
+/-- every command `diff` emits addresses some entry -/
+theorem diff_has_target (a b : St) : ∀ c ∈ diff a b, (tgt c).isSome = true := by
+  intro c hc
+  have lp : ∀ (ty : LType) (keys : Target → Option Nat) (part : List Cmd),
+      (part = diffRemovedL ty a b keys ∨ part = diffAddedL ty a b keys ∨ part = diffCommonL ty a b keys ∨
+        part = diffReactivate ty a b keys) → c ∈ part → (tgt c).isSome = true := by
+    intro ty keys part hp hcp
+    obtain ⟨t', h1, _⟩ := sec_listener_part ty a b keys part hp c hcp
+    rw [h1]; rfl
+  have np : ∀ (part : List Cmd) (n : Nat), (∀ c ∈ part, ∃ t, tgt c = some t ∧ sectionOf t = n) → c ∈ part →
+      (tgt c).isSome = true := by
+    intro part n h hcp
+    obtain ⟨t', h1, _⟩ := h c hcp
+    rw [h1]; rfl
+  unfold diff at hc
+  simp only [List.mem_append] at hc
+  rcases hc with (((((((((((((((((((h | h) | h) | h) | h) | h) | h) | h) | h) | h) | h) | h) | h) | h) | h) | h) | h) | h) | h) | h) | h
+  · exact lp .tcp isTcpL _ (Or.inl rfl) h
+  · exact lp .tcp isTcpL _ (Or.inr (Or.inl rfl)) h
+  · exact lp .udp isUdpL _ (Or.inl rfl) h
+  · exact lp .udp isUdpL _ (Or.inr (Or.inl rfl)) h
+  · exact lp .http isHttpL _ (Or.inl rfl) h
+  · exact lp .http isHttpL _ (Or.inr (Or.inl rfl)) h
+  · exact lp .https isHttpsL _ (Or.inl rfl) h
+  · exact lp .https isHttpsL _ (Or.inr (Or.inl rfl)) h
+  · exact lp .tcp isTcpL _ (Or.inr (Or.inr (Or.inl rfl))) h
+  · exact lp .udp isUdpL _ (Or.inr (Or.inr (Or.inl rfl))) h
+  · exact lp .http isHttpL _ (Or.inr (Or.inr (Or.inl rfl))) h
+  · exact lp .https isHttpsL _ (Or.inr (Or.inr (Or.inl rfl))) h
+  · exact np _ 4 (sec_clusters a b) h
+  · exact np _ 10 (sec_backends a b) h
+  · exact np _ 5 (sec_fronts a b false) h
+  · exact np _ 7 (sec_fronts a b true) h
+  · exact np _ 8 (sec_tcpFronts a b false) h
+  · exact np _ 9 (sec_tcpFronts a b true) h
+  · exact np _ 6 (sec_certs a b) h
+  · exact lp .tcp isTcpL _ (Or.inr (Or.inr (Or.inr rfl))) h
+  · exact lp .udp isUdpL _ (Or.inr (Or.inr (Or.inr rfl))) h
+
+/-- `diff A B` replayed on `A`, seen from any entry: accepted, and the entry ends as in `B` -/
+theorem diff_entry (env : Env) (A B : St) (hA : WF env A) (hB : WF env B)
+    (huA : UniqueBackendIds A) (huB : UniqueBackendIds B) (hfA : UniqueFrontAddr A) (hag : CertContentAgree A B)
+    (t : Target) :
+    ∃ v', foldTO env t (look A t, true) (diff A B) = (v', true) ∧ entryEq (norm v') (norm (look B t)) := by
+  have sk : ∀ (t : Target) (p : Option Val × Bool) (cs : List Cmd) (n : Nat), n ≠ sectionOf t →
+      (∀ c ∈ cs, ∃ t', tgt c = some t' ∧ sectionOf t' = n) → foldTO env t p cs = p := by
+    intro t p cs n hn h
+    apply foldTO_skip_sec
+    intro c hc
+    obtain ⟨t', h1, h2⟩ := h c hc
+    exact ⟨t', h1, by omega⟩
+  cases t
+  case httpL a => exact ⟨_, listeners_O env A B hA hB .http a, entryEq_refl _⟩
+  case httpsL a => exact ⟨_, listeners_O env A B hA hB .https a, entryEq_refl _⟩
+  case tcpL a => exact ⟨_, listeners_O env A B hA hB .tcp a, entryEq_refl _⟩
+  case udpL a => exact ⟨_, listeners_O env A B hA hB .udp a, entryEq_refl _⟩
+  case cluster id =>
+    refine ⟨look B (.cluster id), ?_, entryEq_refl _⟩
+    rw [foldTO_diff_nonlistener env A B _ _ (by simp [sectionOf])]
+    simp only [foldTO_append]
+    rw [clusters_O env A B hA hB id,
+      sk _ _ _ 10 (by simp [sectionOf]) (sec_backends A B), sk _ _ _ 5 (by simp [sectionOf]) (sec_fronts A B false),
+      sk _ _ _ 7 (by simp [sectionOf]) (sec_fronts A B true), sk _ _ _ 8 (by simp [sectionOf]) (sec_tcpFronts A B false),
+      sk _ _ _ 9 (by simp [sectionOf]) (sec_tcpFronts A B true), sk _ _ _ 6 (by simp [sectionOf]) (sec_certs A B)]
+  case backends cid =>
+    obtain ⟨v', h1, h2⟩ := backends_O env A B hA hB huA huB cid
+    refine ⟨v', ?_, entryEq_of_eq _ _ h2⟩
+    rw [foldTO_diff_nonlistener env A B _ _ (by simp [sectionOf])]
+    simp only [foldTO_append]
+    rw [sk _ _ _ 4 (by simp [sectionOf]) (sec_clusters A B), h1,
+      sk _ _ _ 5 (by simp [sectionOf]) (sec_fronts A B false),
+      sk _ _ _ 7 (by simp [sectionOf]) (sec_fronts A B true), sk _ _ _ 8 (by simp [sectionOf]) (sec_tcpFronts A B false),
+      sk _ _ _ 9 (by simp [sectionOf]) (sec_tcpFronts A B true), sk _ _ _ 6 (by simp [sectionOf]) (sec_certs A B)]
+  case httpF k =>
+    refine ⟨look B (.httpF k), ?_, entryEq_refl _⟩
+    rw [foldTO_diff_nonlistener env A B _ _ (by simp [sectionOf])]
+    simp only [foldTO_append]
+    have := fronts_O env A B hA hB false k
+    simp only [frontT, Bool.false_eq_true, if_false] at this
+    rw [sk _ _ _ 4 (by simp [sectionOf]) (sec_clusters A B), sk _ _ _ 10 (by simp [sectionOf]) (sec_backends A B), this,
+      sk _ _ _ 7 (by simp [sectionOf]) (sec_fronts A B true), sk _ _ _ 8 (by simp [sectionOf]) (sec_tcpFronts A B false),
+      sk _ _ _ 9 (by simp [sectionOf]) (sec_tcpFronts A B true), sk _ _ _ 6 (by simp [sectionOf]) (sec_certs A B)]
+  case httpsF k =>
+    refine ⟨look B (.httpsF k), ?_, entryEq_refl _⟩
+    rw [foldTO_diff_nonlistener env A B _ _ (by simp [sectionOf])]
+    simp only [foldTO_append]
+    have := fronts_O env A B hA hB true k
+    simp only [frontT, if_true] at this
+    rw [sk _ _ _ 4 (by simp [sectionOf]) (sec_clusters A B), sk _ _ _ 10 (by simp [sectionOf]) (sec_backends A B),
+      sk _ _ _ 5 (by simp [sectionOf]) (sec_fronts A B false), this,
+      sk _ _ _ 8 (by simp [sectionOf]) (sec_tcpFronts A B false),
+      sk _ _ _ 9 (by simp [sectionOf]) (sec_tcpFronts A B true), sk _ _ _ 6 (by simp [sectionOf]) (sec_certs A B)]
+  case tcpF cid =>
+    obtain ⟨v', h1, hp, hs⟩ := tfs_O env A B hA hB hfA false cid
+    simp only [frontBT, Bool.false_eq_true, if_false] at h1 hp
+    have hsB := tfs_shape env B hB false cid
+    simp only [frontBT, Bool.false_eq_true, if_false] at hsB
+    refine ⟨v', ?_, entryEq_tfs _ _ hs hsB hp⟩
+    rw [foldTO_diff_nonlistener env A B _ _ (by simp [sectionOf])]
+    simp only [foldTO_append]
+    rw [sk _ _ _ 4 (by simp [sectionOf]) (sec_clusters A B), sk _ _ _ 10 (by simp [sectionOf]) (sec_backends A B),
+      sk _ _ _ 5 (by simp [sectionOf]) (sec_fronts A B false), sk _ _ _ 7 (by simp [sectionOf]) (sec_fronts A B true), h1,
+      sk _ _ _ 9 (by simp [sectionOf]) (sec_tcpFronts A B true), sk _ _ _ 6 (by simp [sectionOf]) (sec_certs A B)]
+  case udpF cid =>
+    obtain ⟨v', h1, hp, hs⟩ := tfs_O env A B hA hB hfA true cid
+    simp only [frontBT, if_true] at h1 hp
+    have hsB := tfs_shape env B hB true cid
+    simp only [frontBT, if_true] at hsB
+    refine ⟨v', ?_, entryEq_tfs _ _ hs hsB hp⟩
+    rw [foldTO_diff_nonlistener env A B _ _ (by simp [sectionOf])]
+    simp only [foldTO_append]
+    rw [sk _ _ _ 4 (by simp [sectionOf]) (sec_clusters A B), sk _ _ _ 10 (by simp [sectionOf]) (sec_backends A B),
+      sk _ _ _ 5 (by simp [sectionOf]) (sec_fronts A B false), sk _ _ _ 7 (by simp [sectionOf]) (sec_fronts A B true),
+      sk _ _ _ 8 (by simp [sectionOf]) (sec_tcpFronts A B false), h1, sk _ _ _ 6 (by simp [sectionOf]) (sec_certs A B)]
+  case certs a =>
+    obtain ⟨v', h1, h2⟩ := certs_O env A B hA hB hag a
+    refine ⟨v', ?_, entryEq_of_eq _ _ h2⟩
+    rw [foldTO_diff_nonlistener env A B _ _ (by simp [sectionOf])]
+    simp only [foldTO_append]
+    rw [sk _ _ _ 4 (by simp [sectionOf]) (sec_clusters A B), sk _ _ _ 10 (by simp [sectionOf]) (sec_backends A B),
+      sk _ _ _ 5 (by simp [sectionOf]) (sec_fronts A B false), sk _ _ _ 7 (by simp [sectionOf]) (sec_fronts A B true),
+      sk _ _ _ 8 (by simp [sectionOf]) (sec_tcpFronts A B false), sk _ _ _ 9 (by simp [sectionOf]) (sec_tcpFronts A B true), h1]
+
 end Sozu.State
